@@ -72,6 +72,7 @@ type world struct {
 	chTooLong  int  // same for channel differences
 	complete   bool // all logs fully published
 	date       int
+	seq        int // server-side updates sequence (containers with seq > 0)
 
 	// crash support for C03: snapshot of storage at chosen trace indexes
 	store *memStorage
@@ -187,7 +188,7 @@ func (a api) UpdatesGetState(ctx context.Context) (*tg.UpdatesState, error) {
 	w := a.w
 	w.mu.Lock()
 	defer w.mu.Unlock()
-	return &tg.UpdatesState{Pts: w.head["pts"], Qts: w.head["qts"], Date: w.date, Seq: 0}, nil
+	return &tg.UpdatesState{Pts: w.head["pts"], Qts: w.head["qts"], Date: w.date, Seq: w.seq}, nil
 }
 
 func (w *world) rangeOf(seq string, from, to int) []entry {
@@ -214,7 +215,7 @@ func (a api) UpdatesGetDifference(ctx context.Context, req *tg.UpdatesGetDiffere
 	if len(ents) == 0 {
 		w.record(event{kind: "diff", seq: "pts", from: req.Pts, value: max(req.Pts, hp), final: true})
 		w.record(event{kind: "diff", seq: "qts", from: req.Qts, value: max(req.Qts, hq), final: true})
-		return &tg.UpdatesDifferenceEmpty{Date: w.date, Seq: 0}, nil
+		return &tg.UpdatesDifferenceEmpty{Date: w.date, Seq: w.seq}, nil
 	}
 	toP, toQ := hp, hq
 	final := true
@@ -249,7 +250,7 @@ func (a api) UpdatesGetDifference(ctx context.Context, req *tg.UpdatesGetDiffere
 			other = append(other, e.update())
 		}
 	}
-	state := tg.UpdatesState{Pts: toP, Qts: toQ, Date: w.date, Seq: 0}
+	state := tg.UpdatesState{Pts: toP, Qts: toQ, Date: w.date, Seq: w.seq}
 	w.record(event{kind: "diff", seq: "pts", from: req.Pts, value: toP, final: final})
 	w.record(event{kind: "diff", seq: "qts", from: req.Qts, value: toQ, final: final})
 	if final {
